@@ -60,6 +60,7 @@ CURVES = {
     "cone-noisy": ("hertz_cone", 2e-10),
     "sneddon-clean": ("sneddon_spher_approx", 0.0),
     "sneddon-noisy": ("sneddon_spher_approx", 3e-11),
+    "para-3seg": ("hertz_para", 0.0),
 }
 CP = 1.5e-7
 RANGES = ["whole", "interior", "on-samples", "tiny3", "tiny5", "inverted"]
@@ -77,11 +78,39 @@ def register_expr():
 
 def make(curve):
     mk, noise = CURVES[curve]
+    if curve == "para-3seg":
+        return make_3seg(mk)
     E = {"hertz_para": 3000.0, "hertz_cone": 8000.0,
          "sneddon_spher_approx": 2000.0}[mk]
     tr = synth.truth_params(mk, E=E, contact_point=CP, baseline=8e-11)
     return synth.make_curve(mk, tr, n_app=160, n_ret=140, x_start=1.2e-6,
                             depth=9e-7, noise=noise, seed=2), tr
+
+
+def make_3seg(mk):
+    """approach (segment 0), a pause at maximum depth (1), retract (2) -
+    what a creep-compliance measurement looks like"""
+    from nanite.indent import Indentation
+    tr = synth.truth_params(mk, E=3000.0, contact_point=CP, baseline=8e-11)
+    arr = synth.make_arrays(mk, tr, n_app=160, n_ret=140, x_start=1.2e-6,
+                            depth=9e-7)
+    n, npause = 160, 40
+    out = {}
+    for k, v in arr.items():
+        if k == "segment":
+            out[k] = np.concatenate([
+                np.zeros(n, dtype=np.uint8), np.ones(npause, dtype=np.uint8),
+                2 * np.ones(v.size - n, dtype=np.uint8)])
+        elif k == "time":
+            out[k] = np.arange(v.size + npause) * (v[1] - v[0])
+        else:
+            out[k] = np.concatenate([v[:n], np.full(npause, v[n - 1]),
+                                     v[n:]])
+    idnt = Indentation(data=out, metadata={
+        "path": "/verif/scratch/synth3.h5", "enum": 0,
+        "spring constant": 0.05, "imaging mode": "creep-compliance",
+        "point count": out["force"].size})
+    return idnt, tr
 
 
 def range_of(name, idnt, seg, rtype):
@@ -220,6 +249,13 @@ def consistency(idnt, mk, seg, k, w, init, viol, range_label=""):
             if not (mn <= pf[n].value <= mx):
                 viol("bounds", n, f"{n}={pf[n].value!r} outside "
                      f"[{mn}, {mx}]")
+    for n, (v0, vary0, mn, mx, expr) in init.items():
+        if expr and expr.startswith("E*"):
+            want = pf["E"].value * float(expr[2:])
+            if not math.isclose(pf[n].value, want, rel_tol=1e-12):
+                viol("expr", n, f"{n}={pf[n].value!r} but its expression "
+                     f"{expr} gives {want!r} (expression of the fitted "
+                     f"parameter: {pf[n].expr!r})")
     if "E2" in pf:
         if not math.isclose(pf["E2"].value, 2 * pf["E"].value,
                             rel_tol=1e-12):
@@ -244,6 +280,9 @@ def case_fn(case):
     P["baseline"].set(value=tr["baseline"] * 0.5)
     for name in case["fixed"]:
         P[name].set(vary=False)
+    for name, factor in case.get("user_expr", {}).items():
+        # a constraint of the caller's on a parameter of a shipped model
+        P[name].set(expr=f"E*{factor!r}")
     init = {n: (P[n].value, P[n].vary, P[n].min, P[n].max, P[n].expr)
             for n in P}
     rx = range_of(case["range"], idnt, seg, rtype)
@@ -275,7 +314,7 @@ def cases(tier):
         if curve == "cone-clean":
             models.append("verif_expr4")
         for mk in models:
-            for seg in (0, 1):
+            for seg in ((0, 2) if curve == "para-3seg" else (0, 1)):
                 for rname in RANGES:
                     for rtype in ("absolute", "relative cp"):
                         if rtype == "relative cp" and rname in (
@@ -300,6 +339,25 @@ def cases(tier):
                                         "range": rname, "range_type": rtype,
                                         "weight_cp": w, "k": k,
                                         "fixed": list(fixed)})
+    # constraints of the caller's: contact point / baseline tied to the
+    # modulus by an expression
+    for curve in ("para-clean", "cone-clean"):
+        gen = CURVES[curve][0]
+        Etrue = {"hertz_para": 3000.0, "hertz_cone": 8000.0}[gen]
+        for name, factor in (("contact_point", CP / Etrue),
+                             ("baseline", 8e-11 / Etrue),
+                             ("contact_point", 0.7 * CP / Etrue)):
+            for seg in (0, 1):
+                for rname, rtype in (("whole", "absolute"),
+                                     ("interior", "absolute"),
+                                     ("interior", "relative cp")):
+                    for w in (0, 1e-6):
+                        for k in ks:
+                            cs.append({
+                                "kind": "grid", "curve": curve, "model": gen,
+                                "segment": seg, "range": rname,
+                                "range_type": rtype, "weight_cp": w, "k": k,
+                                "fixed": [], "user_expr": {name: factor}})
     return cs
 
 
